@@ -765,7 +765,8 @@ pub fn gen_case(seed: u64, id: u64) -> Case {
                         "boolean('')", "not(//*)", "count(/)", "//*[position()=last()]/..", "(//*)[0]", "//*[-1]", "//*[1.5]", "//*[0 div 0]",
                         "//*[true()][false()]", "//*[last()][last()]", "//text()[string-length() > 2]", "//*[name() = local-name()]",
                         "//*[count(ancestor::*) > 1]", "//*[sum(@id) > 0]", "//*[string(@x)]", "//*[not(@*)]", "-(-1)", "1 - -1", "2 * 3 div 4 mod 5",
-                        "((((((((((((((((((((((((1))))))))))))))))))))))))", "count(//*[count(//*[count(//*[count(//*[count(//*[count(//*[count(//*[count(//*[count(//*)])])])])])])])])",
+                        "((((((((((((((((((((((((1))))))))))))))))))))))))", "count(//*[count(//*[count(//*)])])",
+                        "boolean(string(number(string(boolean(string(number(string(boolean(string(number(string(boolean(string(number(string(1))))))))))))))))",
                         "string(string(string(string(string(string(string(string(string(string(string(string(string(string(string(string(string(string(string(string(string(string(string(string(1))))))))))))))))))))))))",
                         "'a' = 1", "true() > false()", "//namespace::*[/]", "//namespace::*[/*]", "//namespace::*/..", "//namespace::*/parent::*",
                         "count(//namespace::*/ancestor::*)", "//namespace::*[name()]", "string(//namespace::*)", "//namespace::*[. = 'urn:p']",
@@ -1319,6 +1320,17 @@ pub fn gen_case(seed: u64, id: u64) -> Case {
                 gate = "xe_value_attribute_local_collision".into();
             }
         }
+    }
+    // regions of listed findings that do not depend on where the value goes
+    if tool == "xe"
+        && expect_kind != "fail"
+        && gate.is_empty()
+        && value_has(&vkids, |g| match g {
+            G::El { attrs, .. } => attrs.iter().any(|(k, _)| attrs.iter().any(|(k2, _)| k != k2 && local(k) == local(k2))),
+            _ => false,
+        })
+    {
+        gate = "xe_value_attribute_local_collision".into();
     }
     Case { id, tool: tool.to_string(), argv, doc, expect_kind, expect, gate, what, sel }
 }
